@@ -6,7 +6,7 @@ from typing import Dict, List, Optional, Set, Tuple
 
 from ..model import Repo, ClassInfo, FunctionInfo, AnalysisError, walk_no_nested, src, is_self_attr, call_name, dotted, parent, \
     ancestors, enclosing_stmt, const_str
-from ..core import Ob, Rule, Mutant, mutate_module, find_def, find_defs, replace_node, remove_stmt
+from ..core import Ob, Rule, Mutant, mutate_module, find_def, find_defs, replace_node, remove_stmt, inconclusive
 from ..dataflow import Defs
 from ..cfg import cfg_of
 from .validate import controlling_tests, node_for, raise_guards_before, _calls
@@ -634,8 +634,11 @@ def rule_simulator(repo: Repo) -> List[Ob]:
     if m is not None:
         loops = [n for n in walk_no_nested(m.node) if isinstance(n, ast.For)]
         ok = len(loops) == 1 and isinstance(loops[0].iter, ast.Name) and loops[0].iter.id == m.params()[1] and "reversed" not in src(loops[0])
-    obs.append(Ob("S-simulator", f"{rp}::Simulator._[list]::order", rp, m.node.lineno if m else 0, "Simulator._[list]", ok,
-                  "statements are executed in source order" if ok else "statement list is not executed in plain source order"))
+    if m is not None and not ok and "reversed" not in src(m.node) and "[::-1]" not in src(m.node):
+        obs.append(inconclusive("S-simulator", f"{rp}::Simulator._[list]::order", rp, m.node.lineno, "Simulator._[list]", "iteration over the statement list not recognised"))
+    else:
+        obs.append(Ob("S-simulator", f"{rp}::Simulator._[list]::order", rp, m.node.lineno if m else 0, "Simulator._[list]", ok,
+                      "statements are executed in source order" if ok else "statement list is not executed in plain source order"))
     # if handler: first true condition wins, condition k selects branch k, else only if none held  (decided on the CFG)
     m = kinds.get("IfStatem")
     ok = False
@@ -681,6 +684,16 @@ def rule_simulator(repo: Repo) -> List[Ob]:
                 carg = ev.func.value
                 if isinstance(barg, ast.Subscript) and isinstance(carg, ast.Subscript) and src(barg.slice) == src(carg.slice):
                     pair_ok = True
+                # element of enumerate(conditions) with index i  <->  branches[i]  (or the other way round)
+                for loop in [n for n in walk_no_nested(m.node) if isinstance(n, ast.For)]:
+                    if isinstance(loop.iter, ast.Call) and call_name(loop.iter) == "enumerate" and isinstance(loop.target, ast.Tuple) and len(loop.target.elts) == 2 \
+                            and all(isinstance(x, ast.Name) for x in loop.target.elts) and len(loop.iter.args) == 1:
+                        iv, ev_ = loop.target.elts[0].id, loop.target.elts[1].id
+                        over = src(loop.iter.args[0])
+                        if isinstance(carg, ast.Name) and carg.id == ev_ and over.endswith("conditions") and isinstance(barg, ast.Subscript) and src(barg.slice) == iv:
+                            pair_ok = True
+                        if isinstance(barg, ast.Name) and barg.id == ev_ and over.endswith("branches") and isinstance(carg, ast.Subscript) and src(carg.slice) == iv:
+                            pair_ok = True
                 if isinstance(barg, ast.Name) and isinstance(carg, ast.Name):
                     for loop in [n for n in walk_no_nested(m.node) if isinstance(n, ast.For)]:
                         if isinstance(loop.iter, ast.Call) and call_name(loop.iter) == "zip" and isinstance(loop.target, ast.Tuple) and len(loop.target.elts) == 2 and len(loop.iter.args) == 2:
@@ -694,35 +707,105 @@ def rule_simulator(repo: Repo) -> List[Ob]:
         ok = not problems
         msg = "conditions are tested in order; the first true one runs the branch at the same position and nothing else; else runs only if none held" if ok else "; ".join(sorted(set(problems)))
     obs.append(Ob("S-simulator", f"{rp}::Simulator._[IfStatem]::first-match", rp, m.node.lineno if m else 0, "Simulator._[IfStatem]", ok, msg))
-    # simulate: guard false => stutter
+    # guard: the body runs only if the guard holds in the current state (searched in all methods of the class)
+    body_calls = []
+    for mm in sim.all_methods:
+        for x in walk_no_nested(mm.node):
+            if isinstance(x, ast.Call) and call_name(x) == "execute" and x.args and src(x.args[0]).endswith(".loop_body"):
+                body_calls.append((mm, x))
+    key = f"{rp}::Simulator.simulate::guard"
+    if not body_calls:
+        obs.append(inconclusive("S-simulator", key, rp, sim.node.lineno, "Simulator", "no `execute(<program>.loop_body, ...)` call found in the simulator"))
+    else:
+        mm, call = body_calls[0]
+        cg = cfg_of(mm.node)
+        tests = controlling_tests(cg, node_for(cg, call))
+        guard_tests = [(t, reach) for t, reach in tests if "loop_guard" in src(t.ast) and "evaluate" in src(t.ast)]
+        if not guard_tests:
+            obs.append(Ob("S-simulator", key, rp, call.lineno, mm.qualname, False,
+                          "the loop body is executed without testing the loop guard on the current state: the state does not freeze when the guard is false"))
+        else:
+            t, reach = guard_tests[0]
+            negated = isinstance(t.ast, ast.UnaryOp) and isinstance(t.ast.op, ast.Not)
+            ok = (reach is True and not negated) or (reach is False and negated)
+            obs.append(Ob("S-simulator", key, rp, call.lineno, mm.qualname, ok,
+                          "the body runs exactly when the guard holds in the current state; otherwise the previous state is kept" if ok else
+                          "the loop body runs when the guard is FALSE"))
+    # every run starts with the initial block on an empty state
     f = repo.function(rp, "Simulator.simulate")
-    ifs = [n for n in walk_no_nested(f.node) if isinstance(n, ast.If) and "loop_guard" in src(n.test)]
-    ok = False
-    msg = "guard test not found in simulate"
-    if ifs:
-        i = ifs[0]
-        neg = isinstance(i.test, ast.UnaryOp) and isinstance(i.test.op, ast.Not)
-        stay, step = (i.body, i.orelse) if neg else (i.orelse, i.body)
-        stay_s, step_s = " ".join(src(x) for x in stay), " ".join(src(x) for x in step)
-        ok = ("execute" not in stay_s and ".copy()" in stay_s and "append" in stay_s and "execute(program.loop_body" in step_s and ".copy()" in step_s
-              and "states[-1]" in src(i.test))
-        msg = "when the guard is false the previous state is copied unchanged; otherwise the body runs on a copy of the previous state" if ok else \
-            "guard handling deviates: a false guard must freeze the state, a true guard must run the body on the latest state"
-    obs.append(Ob("S-simulator", f"{rp}::Simulator.simulate::guard", rp, ifs[0].lineno if ifs else f.node.lineno, f.qualname, ok, msg))
-    init = any(isinstance(c, ast.Call) and call_name(c) == "execute" and c.args and src(c.args[0]) == "program.initial" and isinstance(c.args[1], ast.Dict) for c in walk_no_nested(f.node))
-    obs.append(Ob("S-simulator", f"{rp}::Simulator.simulate::initial", rp, f.node.lineno, f.qualname, init,
-                  "each run starts by executing the initial block on an empty state" if init else "runs do not start from the initial block on an empty state"))
-    # Assignment.evaluate: guarded assignment semantics
+    key = f"{rp}::Simulator.simulate::initial"
+
+    def runs_initial(fn_node, selfn):
+        """nodes of fn that execute the initial block (directly, or through a helper that always does)"""
+        out = []
+        cgx = cfg_of(fn_node)
+        for n in cgx.nodes:
+            if n.ast is None:
+                continue
+            for x in ast.walk(n.ast):
+                if isinstance(x, ast.Call) and call_name(x) == "execute" and x.args and src(x.args[0]).endswith(".initial"):
+                    out.append(n)
+                elif isinstance(x, ast.Call) and isinstance(x.func, ast.Attribute) and isinstance(x.func.value, ast.Name) and x.func.value.id == selfn:
+                    h = sim.find_method(x.func.attr)
+                    if h is not None and h.node is not fn_node and h.name != "execute":
+                        hc = cfg_of(h.node)
+                        hn = [y for y in hc.nodes if y.ast is not None and any(isinstance(z, ast.Call) and call_name(z) == "execute" and z.args and src(z.args[0]).endswith(".initial") for z in ast.walk(y.ast))]
+                        if hn and all(hc.postdominates(y, hc.entry) or hc.dominates(y, hc.exit) for y in hn[:1]):
+                            out.append(n)
+        return out
+    cgf = cfg_of(f.node)
+    sample_loops = [n for n in cgf.nodes if n.kind == "test" and n.label == "for" and "samples" in src(n.ast)]
+    init_nodes = runs_initial(f.node, f.params()[0])
+    if not sample_loops or not init_nodes:
+        any_init = any(isinstance(x, ast.Call) and call_name(x) == "execute" and x.args and src(x.args[0]).endswith(".initial") for mm in sim.all_methods for x in walk_no_nested(mm.node))
+        if not any_init:
+            obs.append(Ob("S-simulator", key, rp, f.node.lineno, f.qualname, False, "the initial block is never executed by the simulator"))
+        else:
+            obs.append(inconclusive("S-simulator", key, rp, f.node.lineno, f.qualname, "per-sample loop or the execution of the initial block not recognised"))
+    else:
+        h = sample_loops[0]
+        body_entries = [b for b, lab in cgf.succ[h] if lab is True]
+        skip = any(b not in init_nodes and cgf.reachable(b, h, avoid=set(init_nodes)) for b in body_entries)
+        obs.append(Ob("S-simulator", key, rp, h.lineno, f.qualname, not skip,
+                      "every sample run executes the initial block afresh" if not skip else
+                      "some path through the per-sample loop skips the execution of the initial block: runs share one initial state, random initial assignments are drawn once for all runs"))
+    # Assignment.evaluate: rhs iff the condition holds, else the default variable's value
     g = repo.function("program/assignment/assignment.py", "Assignment.evaluate")
-    ifs = [n for n in g.node.body if isinstance(n, ast.If)]
-    ok = False
-    if ifs:
-        i = ifs[0]
-        ok = src(i.test) == "self.condition.evaluate(state)" and "evaluate_right_side(state)" in " ".join(src(x) for x in i.body) \
-            and "state[self.default]" in " ".join(src(x) for x in i.orelse) and any(isinstance(s, ast.Assign) and src(s.targets[0]) == "state[self.variable]" for s in g.node.body)
-    obs.append(Ob("S-simulator", "program/assignment/assignment.py::Assignment.evaluate::guarded", g.relpath, g.node.lineno, g.qualname, ok,
-                  "x = rhs | cond : default  --  rhs if the condition holds in the current state, else the default variable's value" if ok else
-                  "guarded-assignment evaluation deviates from `rhs if cond else default`"))
+    acls = repo.cls("Assignment", "program/assignment/assignment.py")
+    key = "program/assignment/assignment.py::Assignment.evaluate::guarded"
+    cg = cfg_of(g.node)
+    selfn = g.params()[0]
+    rhs = [n for n in cg.nodes if n.ast is not None and any(isinstance(x, ast.Call) and call_name(x) == "evaluate_right_side" for x in ast.walk(n.ast))]
+    if not rhs:
+        obs.append(inconclusive("S-simulator", key, g.relpath, g.node.lineno, g.qualname, "call of evaluate_right_side not found"))
+    else:
+        tests = controlling_tests(cg, rhs[0])
+        ct = [(t, reach) for t, reach in tests if "condition" in src(t.ast) and "evaluate" in src(t.ast)]
+        if not ct:
+            obs.append(Ob("S-simulator", key, g.relpath, rhs[0].lineno, g.qualname, False, "the right side is evaluated without testing the assignment's condition"))
+        else:
+            t, reach = ct[0]
+            negated = isinstance(t.ast, ast.UnaryOp) and isinstance(t.ast.op, ast.Not)
+            ok = (reach is True and not negated) or (reach is False and negated)
+            # the other outcome uses the default variable's value
+            other = [b for b, lab in cg.succ[t] if lab is (not reach)]
+
+            def reads_default(node):
+                for y in cg._reach(node, cg.succs):
+                    if y.ast is None or y in rhs:
+                        continue
+                    for x in ast.walk(y.ast):
+                        if is_self_attr(x, "default", selfn):
+                            return True
+                        if isinstance(x, ast.Call) and isinstance(x.func, ast.Attribute) and isinstance(x.func.value, ast.Name) and x.func.value.id == selfn:
+                            hh = acls.find_method(x.func.attr)
+                            if hh is not None and any(is_self_attr(z, "default", hh.params()[0]) for z in ast.walk(hh.node)):
+                                return True
+                return False
+            dflt = any(reads_default(b) for b in other) if other else False
+            obs.append(Ob("S-simulator", key, g.relpath, t.lineno, g.qualname, ok and dflt,
+                          "x = rhs | cond : default  --  rhs if the condition holds in the current state, else the default variable's value" if ok and dflt else
+                          ("the right side is used when the condition is FALSE" if not ok else "when the condition is false the default variable's value is not used")))
     return obs
 
 
